@@ -72,6 +72,7 @@ func freshWindowScenario(c *Ctx, rounds int) {
 		rt := &routeHandler{}
 		rt.up = gws.NewUpgrader(rt, opt)
 		ext := map[string][]string{"Sec-WebSocket-Extensions": {fmt.Sprintf("permessage-deflate; server_max_window_bits=%d; client_max_window_bits=%d", bits, bits)}}
+		var prevConn *gws.Conn
 		for round := 0; round < rounds; round++ {
 			tap := newMemConn()
 			h := &recHandler{}
@@ -90,6 +91,22 @@ func freshWindowScenario(c *Ctx, rounds int) {
 			secret := bytes.Repeat([]byte(fmt.Sprintf("secret-of-connection-%d-", round)), 40)
 			if round%2 == 0 {
 				_ = conn.WriteMessage(gws.OpcodeText, secret)
+				// the application still holds the PREVIOUS (finished) connection and writes on it: the calls fail, and they
+				// must not reach into a window that now belongs to this connection
+				if prevConn != nil {
+					before, _, _, _ := conn.VerifWindows()
+					stale := bytes.Repeat([]byte("written-on-a-finished-connection-"), 30)
+					e1 := prevConn.WriteFile(gws.OpcodeBinary, bytes.NewReader(stale))
+					e2 := prevConn.WriteMessage(gws.OpcodeText, stale)
+					after, _, _, _ := conn.VerifWindows()
+					if e1 == nil || e2 == nil {
+						c.oracleFail(fmt.Sprintf("writes on a finished connection succeeded (%v, %v) [%s]", e1, e2, tag), "write-after-close", map[string]any{"tag": tag})
+					}
+					if !bytes.Equal(before, after) {
+						c.oracleFail(fmt.Sprintf("a write call on a FINISHED connection changed the compression window of the connection opened after it (%d -> %d bytes) [%s]", len(before), len(after), tag),
+							"window-two-owners", map[string]any{"tag": tag})
+					}
+				}
 				tap.feed(encodeFrame(frameSpec{Fin: true, Rsv1: true, Opcode: 1, Masked: true, Key: [4]byte{9, 8, 7, 6}, Payload: rfc7692Deflate(secret, nil, 6), DeclLen: -1}))
 				tap.feed(dataFrame(8, true, true, []byte{0x03, 0xe8}))
 			} else {
@@ -124,6 +141,7 @@ func freshWindowScenario(c *Ctx, rounds int) {
 						"window-not-fresh-behaviour", map[string]any{"tag": tag})
 				}
 			}
+			prevConn = conn
 			c.count(tag, true, "kind=fresh-window")
 		}
 	}
